@@ -18,3 +18,6 @@ open LasModel.Props.C19
 #print axioms image_over
 #print axioms C19_appender_crash
 #print axioms C19_truncated
+#print axioms C19_rewrite_session_cut
+#print axioms C19_writer_crash_torn
+#print axioms C19_appender_crash_torn
